@@ -25,7 +25,7 @@ CONNECT_NOTE = (" The Connect model takes what a response body makes the Connect
                 "and body handling are outside. Cancellation is modelled where the code observes it (inside RoundTrip, inside Read, in the select of a wait); "
                 "a context that is already done when Connect starts (first select: timer 0 vs Done, either may win in Go) is a script input of the model "
                 "and is not exercised by the harness; a cancellation during an attempt whose own error is not the context's is observed only by the "
-                "following select (covered in the model through the 'patience' input, in the harness only for waits >= 0.4 s, which is what makes "
+                "following select (covered in the model through the 'patience' input, in the harness only for waits >= 0.9 s, which is what makes "
                 "the outcome independent of timing).")
 
 CONNECT_RULE = ("random scripts of 1-8 attempts {transport error, cancellation inside RoundTrip, validator rejection, accepted stream} with bodies from an "
@@ -34,7 +34,7 @@ CONNECT_RULE = ("random scripts of 1-8 attempts {transport error, cancellation i
                 "after the last bytes: clean EOF, injected read error, cancellation inside Read (immediate or blocking until another goroutine cancels); "
                 "body kinds none / NoBody / body without GetBody / with GetBody / GetBody failing after k calls; OnRetry set or not; an initial Last-Event-ID header "
                 "sometimes present; Backoff: microsecond intervals, Jitter -1, Multiplier 1 / 1.5 / 2, MaxInterval unset / = initial / 2x, MaxRetries -1 / 0 / 1 / 2 / 3 / 5, "
-                "MaxElapsedTime unset / 1 ns / 1 h; server retry values >= 0.4 s lead to cancellation inside OnRetry; plus a sweep: endings (EOF / error / "
+                "MaxElapsedTime unset / 1 ns / 1 h; server retry values >= 0.9 s lead to cancellation inside OnRetry; plus a sweep: endings (EOF / error / "
                 "cancellation) after every byte position of six short streams; corpus: D3 / D3b / D6 witnesses and C10 / C12 scenarios. Non-trivial = distinct scripts "
                 "(every one runs Connect on a real Connection).")
 
@@ -66,7 +66,7 @@ PROPS["C11"] = {
     "level_note": CLIENT_NOTE + CONNECT_NOTE,
     "rule": CONNECT_RULE,
     "assumptions": ["events larger than the scanner buffer (bufio.ErrTooLong) are outside the streams generated here (C20)",
-                    "the context is cancelled only at the instants a script can name: inside RoundTrip, inside Read, inside OnRetry before a wait >= 0.4 s"],
+                    "the context is cancelled only at the instants a script can name: inside RoundTrip, inside Read, inside OnRetry before a wait >= 0.9 s"],
 }
 
 PROPS["C12"] = {
